@@ -53,7 +53,11 @@ ValueOk(e, d, c) ==
             /\ NoChar(body, d) /\ NoChar(body, c) /\ body[1] # LBR
             /\ (d = SP => NoneOf(body, <<SP, TAB>>))
 KeyTextOk(k, d, c) == k # <<>> /\ Printable(k) /\ NoneOf(k, <<d, c, SP, TAB, QUOTE, LBR, RBR>>)
-SecTextOk(g, c) == g = NoGrp \/ (Printable(g) /\ NoOuterBlank(g) /\ NoneOf(g, <<c, LBR, RBR, QUOTE, TAB>>))
+\* (brackets inside a section name are fine - `[eth[0]]`, `[x]]`, `[[y]` read back as eth[0], x], [y: the header's name is what
+\* stands between the first `[` and the last `]`; a name that itself starts with `[` AND ends with `]` is a bracketed spelling of
+\* the name inside, not a name)
+SecTextOk(g, c) == g = NoGrp \/ (Printable(g) /\ NoOuterBlank(g) /\ NoneOf(g, <<c, QUOTE, TAB>>) /\ g # <<>>
+                                   /\ ~(g[1] = LBR /\ g[Len(g)] = RBR))
 SingleLine(e) == ~e.hasv \/ NoChar(e.v, NLc)
 CommentOk(e, c) == /\ (e.ca.has /\ e.ca.t # <<>> => SingleLine(e) /\ NoChar(e.ca.t, NLc) /\ NoneOf(e.ca.t, <<c, QUOTE>>))
                    /\ (e.cb.has => Printable(SelectSeq(e.cb.t, LAMBDA x : x # NLc)))
